@@ -3,6 +3,9 @@ package props
 import (
 	"go/constant"
 	"go/types"
+	"strings"
+
+	"utilcheck/tab"
 
 	"utilcheck/pred"
 )
@@ -73,3 +76,84 @@ func sgn(x int) int {
 }
 
 func constantInt(k int64) constant.Value { return constant.MakeInt64(k) }
+
+// strEmptyKey: the atom "string symbol X is empty", however it is spelled: X == "" or len(X) compared with 0
+// (order 0 = empty, 1 = non-empty in both spellings).
+func strEmptyKey(a, b pred.Val) (string, bool) {
+	c, ok := b.(pred.Const)
+	if !ok || c.V == nil {
+		return "", false
+	}
+	switch c.V.ExactString() {
+	case `""`:
+		if s, ok := a.(pred.Sym); ok {
+			return s.Name + `==""`, true
+		}
+	case "0":
+		if t, ok := a.(pred.Term); ok && t.Fn == "len" && len(t.Args) == 1 {
+			if s, ok := t.Args[0].(pred.Sym); ok {
+				return s.Name + `==""`, true
+			}
+		}
+	}
+	return "", false
+}
+
+// globalTables is the evaluator hook for package-level literal tables: a slice or array of constants that no
+// function of the module writes after initialisation evaluates to its literal contents, whatever it is called.
+func (e *Env) globalTables() func(name string) (pred.Val, bool) {
+	cache := map[string]pred.Val{}
+	miss := map[string]bool{}
+	return func(name string) (pred.Val, bool) {
+		if v, ok := cache[name]; ok {
+			return v, true
+		}
+		if miss[name] {
+			return nil, false
+		}
+		miss[name] = true
+		i := strings.Index(name, ".")
+		if i < 0 {
+			return nil, false
+		}
+		pkg, vn := name[:i], name[i+1:]
+		p := e.P.ByPkg[pkg]
+		g := e.P.Var(pkg, vn)
+		if p == nil || g == nil || !e.C.WrittenOnlyByInit(g) {
+			return nil, false
+		}
+		switch g.Type().Underlying().(*types.Pointer).Elem().Underlying().(type) {
+		case *types.Slice, *types.Array:
+		default:
+			return nil, false
+		}
+		t, err := tab.Literal(p, vn)
+		if err != nil {
+			return nil, false
+		}
+		vals, err := t.SliceValues()
+		if err != nil {
+			return nil, false
+		}
+		cells := make([]*pred.Cell, len(vals))
+		for k, cv := range vals {
+			if cv == nil {
+				return nil, false
+			}
+			cells[k] = &pred.Cell{V: pred.Const{V: cv}, Name: name}
+		}
+		var out pred.Val
+		if _, isArr := g.Type().Underlying().(*types.Pointer).Elem().Underlying().(*types.Array); isArr {
+			av := &pred.ArrayV{Elems: map[int64]*pred.Cell{}, Len: int64(len(cells))}
+			for k, c := range cells {
+				av.Elems[int64(k)] = c
+			}
+			out = av
+		} else {
+			out = &pred.SliceV{Elems: cells}
+		}
+		delete(miss, name)
+		cache[name] = out
+		return out, true
+	}
+}
